@@ -147,7 +147,7 @@ __wrap_fopen (const char *path, const char *mode)
     if (f != NULL && G.ntracked < MAXT)
       G.tracked[G.ntracked++] = f;
   }
-  snprintf (buf, sizeof buf, "io fopen %s -> %d %d", mode[0] ? mode : "EMPTY", f != NULL, f != NULL ? 0 : e);
+  snprintf (buf, sizeof buf, "io fopen %s -> %d %d", mode[0] ? mode : "EMPTY", f != NULL, e);
   emit (buf);
   errno = e;
   return f;
@@ -160,23 +160,21 @@ __wrap_fwrite (const void *p, size_t s, size_t n, FILE * f)
     return __real_fwrite (p, s, n, f);
   const fault_t      *ft = next_fault (1);
   size_t              r, dump = s * n;
-  int                 e, failed;
+  int                 e;
   if (ft) {
     size_t              m = (size_t) ft->shortn < n ? (size_t) ft->shortn : n;
     r = m ? __real_fwrite (p, s, m, f) : 0;
     e = ft->err;
-    failed = 1;
   }
   else {
     r = __real_fwrite (p, s, n, f);
     e = errno;
-    failed = r < n;
   }
   if (dump > G.bufcap)
     dump = G.bufcap;
   char               *h = hexdump (p, dump);
   char               *buf = (char *) malloc (strlen (h) + 128);
-  sprintf (buf, "io fwrite %lu %lu %s -> %lu %d", (unsigned long) s, (unsigned long) n, h, (unsigned long) r, failed ? e : 0);
+  sprintf (buf, "io fwrite %lu %lu %s -> %lu %d", (unsigned long) s, (unsigned long) n, h, (unsigned long) r, e);
   emit (buf);
   free (buf);
   free (h);
@@ -227,7 +225,7 @@ __wrap_fseek (FILE * f, long off, int whence)
     r = __real_fseek (f, off, whence);
     e = errno;
   }
-  snprintf (buf, sizeof buf, "io fseek %ld %d -> %d %d", off, whence, r, r ? e : 0);
+  snprintf (buf, sizeof buf, "io fseek %ld %d -> %d %d", off, whence, r, e);
   emit (buf);
   errno = e;
   return r;
@@ -250,7 +248,7 @@ __wrap_ftell (FILE * f)
     r = __real_ftell (f);
     e = errno;
   }
-  snprintf (buf, sizeof buf, "io ftell -> %ld %d", r, r < 0 ? e : 0);
+  snprintf (buf, sizeof buf, "io ftell -> %ld %d", r, e);
   emit (buf);
   errno = e;
   return r;
@@ -270,7 +268,7 @@ __wrap_fflush (FILE * f)
     r = EOF;
     e = ft->err;
   }
-  snprintf (buf, sizeof buf, "io fflush -> %d %d", r ? -1 : 0, r ? e : 0);
+  snprintf (buf, sizeof buf, "io fflush -> %d %d", r ? -1 : 0, e);
   emit (buf);
   errno = e;
   return r;
@@ -292,7 +290,7 @@ __wrap_fclose (FILE * f)
     r = EOF;
     e = ft->err;
   }
-  snprintf (buf, sizeof buf, "io fclose -> %d %d", r ? -1 : 0, r ? e : 0);
+  snprintf (buf, sizeof buf, "io fclose -> %d %d", r ? -1 : 0, e);
   emit (buf);
   errno = e;
   return r;
@@ -370,6 +368,11 @@ do_op (scen_t * sc, int rank, int i, sc_MPI_File * file, int *opened)
   op_t               *o = &sc->ops[i];
   char               *out = NULL;
   int                 cls, ocount = -7;
+  {
+    char                mk[64];
+    snprintf (mk, sizeof mk, "op %d %c", i, o->kind);
+    emit (mk);
+  }
   if (o->kind == 'o') {
     *file = sc_MPI_FILE_NULL;
     cls = sc_io_open (sc_MPI_COMM_WORLD, G.path, (sc_io_open_mode_t) o->a, sc_MPI_INFO_NULL, file);
